@@ -74,7 +74,7 @@ def generate(rng, tier, k):
         return scn
     version = rng.choice((1, 2, 2))
     ftype = rng.choice((3, 5, 8))
-    nchan = rng.choice((1, 1, 2, 2, 3, 4))
+    nchan = rng.choice((1, 1, 2, 2, 3, 4)) if rng.random() < 0.97 else rng.choice((6, 8))
     P = rng.choice((0, 0, 1, 2, 3, 5, 8))
     M = rng.choice((0, 1, 2, 4, 4))
     B = rng.choice((1, 2, 3, 4, 7, 8, 16, 32, 61, 128, 256)) if rng.random() < 0.6 else rng.randrange(1, 300)
